@@ -20,9 +20,9 @@ PLAN = {
             "thorough": ["struct3", "struct4s", "struct5s", "struct3c", "struct3z", "struct3p", "struct4", "seg13", "seg13z", "seg22", "seg3d", "feat13",
                          "prims3", "primseg"]},
     "C03": {"quick": ["struct3", "struct4s", "struct5s", "struct4n0"], "thorough": ["struct3", "struct4s", "struct5s", "struct4", "seg13", "struct4n0"]},
-    "C04": {"quick": ["struct3", "struct4s", "struct5s", "struct4n0"], "thorough": ["struct3", "struct4s", "struct5s", "struct4", "seg13", "struct4n0"]},
-    "C05": {"quick": ["struct3", "struct4s", "struct5s", "struct4n0"], "thorough": ["struct3", "struct4s", "struct5s", "struct4", "seg13", "struct4n0"]},
-    "C06": {"quick": ["struct3", "struct4s", "struct5s", "struct4n0"], "thorough": ["struct3", "struct4s", "struct5s", "struct4", "seg13", "struct4n0"]},
+    "C04": {"quick": ["struct3", "struct4s", "struct5s", "struct4n0", "struct3zf", "struct3zc"], "thorough": ["struct3", "struct4s", "struct5s", "struct4", "seg13", "struct4n0", "struct3zf", "struct3zc"]},
+    "C05": {"quick": ["struct3", "struct4s", "struct5s", "struct4n0", "struct3zf", "struct3zc"], "thorough": ["struct3", "struct4s", "struct5s", "struct4", "seg13", "struct4n0", "struct3zf", "struct3zc"]},
+    "C06": {"quick": ["struct3", "struct4s", "struct5s", "struct4n0", "struct3zf", "struct3zc"], "thorough": ["struct3", "struct4s", "struct5s", "struct4", "seg13", "struct4n0", "struct3zf", "struct3zc"]},
     "C07": {"quick": ["seg13", "seg3d", "seg6s"], "thorough": ["seg13", "seg22", "seg3d", "seg13n", "seg6s"]},
     "C08": {"quick": ["seg13", "seg3d", "feat13", "feat3d", "feat333"],
             "thorough": ["seg13", "seg22", "seg3d", "seg13n", "feat13", "feat22", "feat3d", "feat333"]},
